@@ -146,6 +146,15 @@ pub enum InvalidSchemaError {
         definition, which names the root query type."
     )]
     DuplicateSchemaDefinition,
+
+    #[error(
+        "The schema has no \"schema\" definition. A schema must contain exactly one \"schema\" \
+        definition, which names the root query type."
+    )]
+    MissingSchemaDefinition,
+
+    #[error("The \"schema\" definition does not declare a root query type.")]
+    MissingQueryType,
 }
 
 impl From<Vec<InvalidSchemaError>> for InvalidSchemaError {
